@@ -230,8 +230,62 @@ class Ctx:
             raise RuntimeError("model driver failed: " + p.stderr.decode()[-1000:])
         return p.stdout.decode("utf-8").splitlines()
 
-    def correspond(self, outdir, nontrivial_tag=None, what_prefix="", ignore_spec=None):
+    # ---- shrinking a failing program ---------------------------------------------------------
+    def _still_fails(self, group, src, clause, which):
+        """does the one-program run of `group` on `src` still produce a verdict of kind `which` containing `clause`?"""
+        d = os.path.join(self.workdir, "shrink")
+        shutil.rmtree(d, ignore_errors=True)
+        os.makedirs(d, exist_ok=True)
+        f = os.path.join(d, "candidate.lua")
+        with open(f, "w", encoding="utf-8", newline="") as fh:
+            fh.write(src)
+        env = dict(ENV); env["VERIF_ONLY_PROGRAM"] = f
+        rc, out, err = run([HARNESS_EXE, group, "--seed", str(self.seed), "--n", "0", "--tier", "quick", "--out", d], env=env, timeout=120)
+        if rc != 0:
+            return False
+        try:
+            resp = self.model(os.path.join(d, "cases.tsv"))
+        except Exception:
+            return False
+        for r in resp:
+            parts = (r.split("\t") + ["", "", "", ""])[:4]
+            if which == "spec" and parts[1].startswith("BAD") and clause in parts[1]:
+                return True
+            if which == "diff" and parts[0] == "DIFF" and not parts[1].startswith("BAD"):
+                return True
+        return False
+
+    def shrink_program(self, group, src, clause, which="spec", budget_s=25.0, max_tests=160):
+        """delta debugging over the lines of a program: the smallest line subset found on which the same verdict
+        persists (a candidate that no longer parses simply does not reproduce it)"""
+        t0 = time.time()
+        lines = src.splitlines(keepends=True)
+        tests = 0
+        if not self._still_fails(group, src, clause, which):
+            return None, 0
+        n = 2
+        while len(lines) >= 2 and tests < max_tests and time.time() - t0 < budget_s:
+            chunk = max(1, len(lines) // n)
+            reduced = False
+            i = 0
+            while i < len(lines) and tests < max_tests and time.time() - t0 < budget_s:
+                cand = lines[:i] + lines[i + chunk:]
+                tests += 1
+                if cand and self._still_fails(group, "".join(cand), clause, which):
+                    lines = cand
+                    n = max(n - 1, 2)
+                    reduced = True
+                else:
+                    i += chunk
+            if not reduced:
+                if chunk == 1:
+                    break
+                n = min(n * 2, len(lines))
+        return "".join(lines), tests
+
+    def correspond(self, outdir, nontrivial_tag=None, what_prefix="", ignore_spec=None, shrink_group=None):
         """Compare the implementation's outputs with the model's and judge them by the spec."""
+        shrunk = 0
         cases_path = os.path.join(outdir, "cases.tsv")
         cases = open(cases_path, encoding="utf-8").read().splitlines()
         resp = self.model(cases_path)
@@ -261,8 +315,18 @@ class Ctx:
             if spec.startswith("BAD"):
                 self.impl_vs_spec_failures += 1
                 for item in items:
+                    extra = ""
+                    src = extract_program(inp) if shrink_group else None
+                    is_new = not any(f["kind"] == "finding" and re.search(f["key"], item, re.S) for f in self.findings)
+                    if src and is_new and shrunk < 2:
+                        shrunk += 1
+                        clause = item[:24]
+                        small, tests = self.shrink_program(shrink_group, src, clause)
+                        if small is not None:
+                            extra = (f"\nminimised program ({len(small.splitlines())} of {len(src.splitlines())} lines, {tests} candidates tried; "
+                                     f"it still draws a `{clause}` verdict):\n{small}")
                     self.violation(f"{what_prefix}implementation violates the specification: {cmd}: {item[:300]}",
-                                   f"case: {cmd}\ninput: {inp}\nimplementation: {impl}\nspecification-verdict: BAD:{item}\nmodel: {model_out}\nrerun: harness group output {outdir} line {i + 1}")
+                                   f"case: {cmd}\ninput: {inp}\nimplementation: {impl}\nspecification-verdict: BAD:{item}\nmodel: {model_out}\nrerun: harness group output {outdir} line {i + 1}" + extra)
             elif agree != "agree":
                 self.model_vs_impl_disagreements += 1
                 self.violation(f"{what_prefix}correspondence {cmd} broke: model and implementation differ (the implementation's output still satisfies the specification checks evaluated on this input)",
@@ -318,6 +382,40 @@ class Ctx:
             return 1
         log(f"[{self.pid}] ok: {self.discharged}/{self.obligations} theorems, {self.evaluations} cases ({len(self.nontrivial)} non-trivial), {wall:.1f}s")
         return 0
+
+
+def extract_program(inp):
+    """the source text inside a `(chunk origin "src" …)` request: the second top-level string of the S-expression"""
+    strings = []
+    depth = 0
+    i = 0
+    n = len(inp)
+    while i < n:
+        c = inp[i]
+        if c == "(":
+            depth += 1
+        elif c == ")":
+            depth -= 1
+        elif c == '"':
+            j = i + 1
+            buf = []
+            while j < n and inp[j] != '"':
+                if inp[j] == "\\" and j + 1 < n:
+                    e = inp[j + 1]
+                    if e == "n": buf.append("\n"); j += 2
+                    elif e == "t": buf.append("\t"); j += 2
+                    elif e == "r": buf.append("\r"); j += 2
+                    elif e == "u" and j + 2 < n and inp[j + 2] == "{":
+                        k = inp.index("}", j)
+                        buf.append(chr(int(inp[j + 3:k], 16))); j = k + 1
+                    else: buf.append(e); j += 2
+                else:
+                    buf.append(inp[j]); j += 1
+            if depth == 1:
+                strings.append("".join(buf))
+            i = j
+        i += 1
+    return strings[1] if len(strings) >= 2 else None
 
 
 def load_findings(pid):
